@@ -85,7 +85,7 @@ func (c *Ctx) compareReads(pj *simdjson.ParsedJson, specDump string, info map[st
 
 func checkC02(c *Ctx) {
 	r := c.Rng
-	c.Ev.Coverage.Rule = "accepted documents read through every path of the real API (Advance+Root+Array.Iter+NextElementBytes, Interface()/Map(), ParsedJson/Array/Object.ForEach, AdvanceIter+Object.Parse) compared with each other, with the modelled read paths run on the same tape, with the tape's denotation and with the specification's document; tapes also compared word for word with the model's. Streams: grammar-directed documents (G1), boundary-positioned ones (G7), deep nesting 1..3000, wide containers >= 3*1408 members, duplicate keys, every scalar kind. non-trivial = accepted document; distinct = by input bytes"
+	c.Ev.Coverage.Rule = "accepted documents read through every path of the real API (Advance+Root+Array.Iter+NextElementBytes, Interface()/Map(), ParsedJson/Array/Object.ForEach, AdvanceIter+Object.Parse) compared with each other, with the typed bulk accessors (Array.AsFloat/AsInteger/AsUint64/AsString/AsStringCvt/Interface/MarshalJSON, Object.Map/FindKey/...) judged against plain traversal, with the modelled read paths run on the same tape, with the tape's denotation and with the specification's document; tapes also compared word for word with the model's. Streams: grammar-directed documents (G1), boundary-positioned ones (G7), deep nesting 1..3000, wide containers >= 3*1408 members, duplicate keys, every scalar kind, arrays of numbers at the int64/uint64/float64 edges. non-trivial = accepted document; distinct = by input bytes"
 	flags := ChkVerdict | ChkDump | ChkModel | ChkKernels | ChkCopyModes | ChkNoPanic
 	var batch []PCase
 	nreads := 0
@@ -101,6 +101,11 @@ func checkC02(c *Ctx) {
 				// both string modes on the preferred kernel
 				nreads++
 				c.compareReads(o.out.PJ, spec[3:]+"|", map[string]interface{}{"doc_hex": fmt.Sprintf("%x", pc.Doc), "doc_text": printable(pc.Doc), "copy": o.copy, "stream": pc.Stream}, "")
+				// the bulk accessors (Array.As*, Object.Map/FindKey/..., Array.Interface) are read paths too
+				if len(pc.Doc) <= 4000 && o.copy {
+					c.bulkVsTraversal(o.out.PJ, pc.Doc, 3)
+					c.convJudgeAll(o.out.PJ, pc.Doc, 4)
+				}
 			}
 		})
 		batch = batch[:0]
@@ -118,6 +123,18 @@ func checkC02(c *Ctx) {
 			o = &GenOpts{MaxDepth: 5, MaxFan: 5, TopFan: 30 + r.Intn(100), WS: r.Intn(9)}
 		}
 		add("G1-valid", genDoc(r, o))
+	}
+	// arrays of numbers at the int64/uint64/float64 edges (typed bulk accessors)
+	for i := 0; i < c.N(300, 3000); i++ {
+		var elems []string
+		for j := 1 + r.Intn(6); j > 0; j-- {
+			if r.Chance(2, 3) {
+				elems = append(elems, numBoundary[r.Intn(len(numBoundary))])
+			} else {
+				elems = append(elems, genNumber(r))
+			}
+		}
+		add("numeric-array", []byte("["+strings.Join(elems, ",")+"]"))
 	}
 	// deep nesting
 	for _, d := range []int{1, 2, 3, 10, 63, 64, 65, 127, 128, 129, 500, 1000, 3000} {
